@@ -76,24 +76,37 @@ func (l *c10Log) check() {
 					env.And(len(ppm.SenderMemberId()) == 1, ppm.SenderMemberId()[0] == ref.leader(a.view))))
 			}
 		case 2:
-			// prepared certificate or commit quorum for exactly (view, hash) in the node's log
-			ppm, ok := n.st.GetPreprepareMessage(a.height, a.view)
+			// prepared certificate or commit quorum for exactly (view, hash) among the messages the node accepted for
+			// storing (taken from the recorder in front of the storage, not from the storage's own getters)
 			just := false
-			if ok && ppm.Block() != nil {
-				hashOK := env.EqBytes(ppm.Content().SignedHeader().BlockHash(), a.hash)
-				pids := []byte{ref.leader(a.view)}
-				for _, id := range n.st.GetPrepareSendersIds(a.height, a.view, a.hash) {
-					if len(id) == 1 {
-						pids = append(pids, id[0])
+			var ppe *stub.StoreEvent
+			for _, e := range n.st.Events {
+				if e.Kind == "PP" && ppe == nil && e.Msg.BlockHeight() == a.height && e.Msg.View() == a.view {
+					ppe = e
+				}
+			}
+			if ppe != nil && ppe.Msg.(*interfaces.PreprepareMessage).Block() != nil {
+				hashOK := env.EqBytes(ppe.Msg.(*interfaces.PreprepareMessage).Content().SignedHeader().BlockHash(), a.hash)
+				pids, puse := []byte{ref.leader(a.view)}, []bool{true}
+				cids, cuse := []byte{}, []bool{}
+				for _, e := range n.st.Events {
+					id := e.Msg.SenderMemberId()
+					if len(id) != 1 {
+						continue
+					}
+					match := env.And(e.Msg.BlockHeight() == a.height, e.Msg.View() == a.view)
+					switch m := e.Msg.(type) {
+					case *interfaces.PrepareMessage:
+						if e.Kind == "P" {
+							pids, puse = append(pids, id[0]), append(puse, env.And(match, env.EqBytes(m.Content().SignedHeader().BlockHash(), a.hash)))
+						}
+					case *interfaces.CommitMessage:
+						if e.Kind == "C" && id[0] != myId {
+							cids, cuse = append(cids, id[0]), append(cuse, env.And(match, env.EqBytes(m.Content().SignedHeader().BlockHash(), a.hash)))
+						}
 					}
 				}
-				cids := []byte{}
-				for _, id := range n.st.GetCommitSendersIds(a.height, a.view, a.hash) {
-					if len(id) == 1 && id[0] != myId {
-						cids = append(cids, id[0])
-					}
-				}
-				just = env.And(hashOK, env.Or(ref.weight(pids, allTrue(len(pids))) >= ref.q(), ref.weight(cids, allTrue(len(cids))) >= ref.q()-ref.w[wd.me]))
+				just = env.And(hashOK, env.Or(ref.weight(pids, puse) >= ref.q(), ref.weight(cids, cuse) >= ref.q()-ref.w[wd.me]))
 			}
 			env.Assert("C10.commit_justified", just)
 		case 3:
